@@ -138,6 +138,21 @@ def run(res):
     for (m, t, r), a in zip(inlogic_q, inl):
         if (r == 'OK') != (a.strip() == 'true'):
             direct.append(('%s: building %s gives %s but the documented syntax says in-logic=%s' % (m, tree_str(t), r, a), m, t))
+    # is_a_state_formula() of every object built in the CTL* and CTL modules vs the model's state-formula predicates
+    # (Fm.isCTLSState is a hypothesis of the C03 theorems, Fm.isCTLState of C01's)
+    isq = [(m, t, o) for m in ('CTLS', 'CTL') for t, o in built[m]]
+    isstate_bad = 0
+    for (m, t, o), a in zip(isq, lean_batch(['ISSTATE|%s|%s' % (m, sexpr(t)) for m, t, _ in isq])):
+        r, v = V.py_result(lambda: o.is_a_state_formula())
+        got_ = ('true' if v else 'false') if r == 'OK' and isinstance(v, bool) else r
+        if got_ != a.strip():
+            isstate_bad += 1
+            if isstate_bad <= 2:
+                res.violation('%s: is_a_state_formula() of %s is %s, the model\'s state-formula predicate says %s — correspondence '
+                              'Fm.isCTLSState / isCTLState vs is_a_state_formula no longer checks' % (m, tree_str(t), got_, a.strip()),
+                              {'module': m, 'tree': sexpr(t), 'impl': got_, 'model': a.strip(),
+                               'correspondence': 'PMC.Fm.isCTLSState / isCTLState (PMC/Model/Syntax.lean) vs is_a_state_formula'},
+                              no_input=True)
     bad = 0
     for w, e, g in zip(what, expect, got):
         if e != g.strip():
@@ -158,6 +173,7 @@ def run(res):
                 'a non-Kripke; distinct_nontrivial = operations that succeed' % (len(all2), len(d3)),
         'exhaustive': True, 'exhaustive_scope': 'depth <= 2', 'outcomes': stats, 'disagreements': bad,
         'direct_oracle_violations': len(direct), 'operator_overload_and_shortcut_cases': overload,
+        'is_a_state_formula_compared': len(isq), 'is_a_state_formula_mismatches': isstate_bad,
         'samples': [{'op': lines[i], 'impl': expect[i], 'model': got[i]} for i in (7, len(lines) // 2, len(lines) - 1)],
         'traces_validated_against_impl': len(lines),
     })
